@@ -116,6 +116,20 @@ def instance_memos(mod, cls):
                 t = e.target.as_atom()
                 if t and t[0] == "attr" and t[1].key() == "self" and t[2] in tested:
                     memos[t[2]] = (fn.name, e.node, "attr")
+                elif t and t[0] == "attr" and t[1].key() == "self" and t[2] in got:
+                    # cached = getattr(self, "_x", None); if cached is None or cached[0] != key: ...; self._x = (key, value)
+                    # only equality tests make a key: `cached[0] is not self.positions` compares identities, which an in-place
+                    # change of the array does not alter
+                    s_ = t[2]
+                    keyt = ()
+                    for tt in ev.events:
+                        if tt.kind != "test":
+                            continue
+                        for a in find_atoms(tt.value, lambda a: a[0] == "eq"):
+                            for x, y in ((a[1], a[2]), (a[2], a[1])):
+                                if f"getattr(self, '{s_}', None)" in x.key():
+                                    keyt = keyt + (y,)
+                    memos[s_] = (fn.name, e.node, "keyed", keyt, e.value)
                 if t and t[0] == "sub" and not _is_self_dict(t[1]):
                     root = dict_root(t[1])
                     if root in dict_tested:
